@@ -202,7 +202,8 @@ def plan():
                           "the header and runs the user's header callback before the MAC is computed. "
                           "(H3) pdu_verifyHmac and KSI_*Pdu_verify accept iff header and MAC are present, the configured algorithm is unset or equals the received one, the recomputation succeeds "
                           "and the imprints agree in every byte including the algorithm id. (H5) In the blocking and asynchronous clients, for every combination of callee outcomes, response and "
-                          "configuration payload, the user callback and the handle's respCtx are reached only after that PDU's verification returned OK under the endpoint key; error PDUs deliver nothing.",
+                          "configuration payload, the user callback and the handle's respCtx are reached only after that PDU's verification returned OK under the endpoint key; error PDUs deliver nothing - also when a response / configuration payload accompanies the error payload "
+                          "(presence flags independent), and a non-zero error status is returned as an error.",
             "level_note": "Compositional: H2-H5 use stubs for KSI_HMAC_create, the TLV template serializer/parser and (H5) every types.c callee, each with a symbolic outcome; the stub contracts used "
                           "(KSI_*Pdu_verify never returns OK without header and MAC) are themselves established by H2/H3. Not covered: the template parser's 'header first / MAC last' flags and the "
                           "serializer (C09/C10), so 'the trailing bytes are the digest' rests on them; libcurl / sockets / the HA client; keys and messages beyond the stated lengths; "
